@@ -3,7 +3,7 @@
 (*                                                                                           *)
 (* Written from the Yellow Paper and the EIPs (150 63/64 rule, 161, 1153 transient storage,  *)
 (* 1559, 2200/2929/3529 storage gas and refunds, 2930 access lists, 3541, 3651 warm          *)
-(* coinbase, 7702 delegated code in calls (Prague; not the authorisation list itself),        *)
+(* coinbase, 4844 blob fee (envelope only), 7702 delegated code and authorisation lists,      *)
 (* coinbase, 3855 PUSH0, 3860 initcode, 6780 SELFDESTRUCT, 7623 calldata floor (Prague),     *)
 (* 7825 transaction gas cap (Osaka), 7939 CLZ (Osaka)), for the rule sets Cancun, Prague and *)
 (* Osaka - not from core/vm.                                                                 *)
@@ -268,7 +268,7 @@ OpResult(m, f, ob) ==
   ELSE
   CASE op = 0 -> [Base(f, w) EXCEPT !.halt = "stop"]
     (* --- arithmetic, comparison, bitwise --- *)
-    [] op = 10 -> IF ~Known(b) THEN [Faulted(f, w) EXCEPT !.chk = FALSE]    \* EXP with unknown exponent size: not modelled
+    [] op = 10 -> IF ~Known(b) THEN [Base(f, w) EXCEPT !.chk = FALSE]       \* EXP with unknown exponent size: not modelled
                   ELSE PushRes(f, w, 2, BinOp(op, a, b, ob), 10 + 50 * ByteLen(b))
     [] op \in BinOps -> PushRes(f, w, 2, BinOp(op, a, b, ob), SimpleGas(op))
     [] op \in TernOps -> PushRes(f, w, 3, AnyVal(ob), 8)
@@ -299,6 +299,7 @@ OpResult(m, f, ob) ==
     [] op = 65 -> PushRes(f, w, 0, Exact(m.tx.coinbase), 2)
     [] op = 71 -> PushRes(f, w, 0, Exact(Bal(w, f.self)), 5)
     [] op = 72 -> PushRes(f, w, 0, Exact(m.tx.baseFee), 2)
+    [] op = 74 -> PushRes(f, w, 0, Exact(m.tx.blobBaseFee), 2)
     [] op = 88 -> PushRes(f, w, 0, Exact(f.pc), 2)
     [] op = 89 -> PushRes(f, w, 0, Exact(32 * Len(f.mem)), 2)
     [] op = 90 -> PushRes(f, w, 0, Exact(f.gas - 2), 2)
@@ -411,7 +412,7 @@ OpResult(m, f, ob) ==
                                         f.static \/ op = 250,
                                         Slice(mem2, ao, al), al, ro, rl, f.depth + 1)
                   IN IF f.static /\ op = 241 /\ value # 0 THEN Faulted(f, w)
-                     ELSE IF deleg /\ tgt = BIGT THEN [Faulted(f, w) EXCEPT !.chk = FALSE]       \* delegation to a large address: not modelled
+                     ELSE IF deleg /\ tgt = BIGT THEN [Base(f, w) EXCEPT !.chk = FALSE]          \* delegation to a large address: not modelled
                      ELSE IF base = INF \/ base > f.gas THEN [Faulted(f, w) EXCEPT !.cost = base]
                      ELSE [Base(f, w) EXCEPT !.stack = PopN(s, ar[1]), !.cost = base + fwd, !.fwd = 0, !.mem = mem2,
                                              !.w = IF deleg THEN Warm(Warm(w, b), tgt) ELSE Warm(w, b),
@@ -430,7 +431,7 @@ OpResult(m, f, ob) ==
                      ELSE IF base = INF \/ base > f.gas THEN [Faulted(f, w) EXCEPT !.cost = base]
                      ELSE [Base(f, w) EXCEPT !.stack = PopN(s, ar[1]), !.cost = base, !.fwd = fwd, !.mem = mem2,
                                              !.hasChild = TRUE, !.child = child]
-    [] OTHER -> [Faulted(f, w) EXCEPT !.chk = FALSE]
+    [] OTHER -> [Base(f, w) EXCEPT !.chk = FALSE]
 
 (* ------------------------------- machine ------------------------------------------------ *)
 Top(m) == m.fr[Len(m.fr)]
@@ -442,9 +443,9 @@ Finish(f, ok, rev, gasLeft, out, outLen) ==
 (* Exec: one instruction of the running top frame; r = OpResult(m, Top(m), ob).              *)
 ExecR(m, r) ==
   LET f == Top(m) IN
-  IF ~r.chk THEN [m EXCEPT !.ph = "stuck"]
-  ELSE IF r.fault \/ r.cost = INF \/ r.cost + r.fwd > f.gas
+  IF r.fault \/ r.cost = INF \/ r.cost + r.fwd > f.gas
     THEN SetTop(m, Finish(f, FALSE, FALSE, 0, << >>, 0))                  \* exceptional halt: all gas gone
+  ELSE IF ~r.chk THEN [m EXCEPT !.ph = "stuck"]                           \* (what is known about a result only matters if there is one)
   ELSE LET f1 == [f EXCEPT !.gas = f.gas - r.cost - r.fwd, !.stack = r.stack, !.mem = r.mem, !.pc = r.pc]
            m1 == [m EXCEPT !.w = r.w] IN
        IF r.halt # "" THEN SetTop(m1, Finish(f1, r.halt # "revert", r.halt = "revert", f1.gas, r.out, r.outLen))
@@ -535,7 +536,8 @@ Intrinsic(tx) ==
   LET z == CountZ(tx.data)
       nz == Len(tx.data) - z IN
   21000 + (IF tx.isCreate THEN 32000 + 2 * Words(Len(tx.data)) ELSE 0) + 4 * z + 16 * nz
-        + 2400 * Len(tx.alAddrs) + 1900 * Len(tx.alKeys)
+        + 2400 * Len(tx.alAddrs) + 1900 * Len(tx.alKeys) + 25000 * Len(tx.auths)
+BlobGas(tx) == 131072 * Len(tx.blobVers)
 FloorGas(tx) ==
   LET z == CountZ(tx.data)
       nz == Len(tx.data) - z IN
@@ -551,10 +553,37 @@ Invalid(tx, w) ==
     [] tx.feeCap < tx.baseFee -> "feecap"
     [] tx.isCreate /\ Len(tx.data) > 49152 -> "initsize"
     [] tx.gas > tx.blockGas -> "blockgas"
-    [] s.bal < tx.gas * tx.feeCap + tx.value -> "funds"
+    [] tx.blobTx /\ (tx.isCreate \/ Len(tx.blobVers) = 0) -> "blobshape"
+    [] tx.blobTx /\ tx.fork = "osaka" /\ Len(tx.blobVers) > 6 -> "blobcount"
+    [] \E i \in DOMAIN tx.blobVers : tx.blobVers[i] # 1 -> "blobversion"
+    [] tx.blobTx /\ tx.blobFeeCap < tx.blobBaseFee -> "blobfee"
+    [] tx.setCode /\ (tx.isCreate \/ Len(tx.auths) = 0 \/ tx.fork = "cancun") -> "setcodeshape"
+    [] s.bal < tx.gas * tx.feeCap + tx.value + BlobGas(tx) * tx.blobFeeCap -> "funds"
     [] tx.gas < Intrinsic(tx) -> "intrinsic"
     [] tx.gas < FloorGas(tx) -> "floor"
     [] OTHER -> ""
+
+(* EIP-7702 authorisation list (Prague): each tuple [chainOk, nonce, target, authority] -      *)
+(* authority = UNK when the signature does not recover - is applied in order: skipped unless    *)
+(* the chain id is 0 or ours, the authority's code is empty or a delegation and its nonce       *)
+(* matches; the authority becomes warm as soon as it is recovered; an existing authority        *)
+(* refunds 12500 of the 25000 charged intrinsically; the code becomes the designator of the    *)
+(* target (cleared for target 0) and the nonce is bumped.                                       *)
+Designator(t) == <<239, 1, 0>> \o [i \in 1..16 |-> 0] \o <<(t \div 16777216) % 256, (t \div 65536) % 256, (t \div 256) % 256, t % 256>>
+RECURSIVE ApplyAuths(_, _, _)
+ApplyAuths(w, tx, i) ==
+  IF i > Len(tx.auths) THEN w
+  ELSE LET au == tx.auths[i]
+           a  == au.authority
+           ac == Acct(w, a)
+           w1 == Warm(w, a)
+           okCode == Len(ac.code) = 0 \/ IsDeleg(ac.code, tx.fork)
+       IN IF ~au.chainOk \/ a = UNK THEN ApplyAuths(w, tx, i + 1)
+          ELSE IF ~okCode \/ ac.nonce # au.nonce THEN ApplyAuths(w1, tx, i + 1)
+          ELSE LET w2 == [w1 EXCEPT !.refund = @ + (IF Dead(w1, a) THEN 0 ELSE 12500)]
+                   w3 == SetAcct(w2, a, [ac EXCEPT !.nonce = @ + 1,
+                                                   !.code = IF au.target = 0 THEN << >> ELSE Designator(au.target)])
+               IN ApplyAuths(w3, tx, i + 1)
 
 MkWorld(accts) ==
   [acct  |-> [a \in {accts[i].addr : i \in DOMAIN accts} |->
@@ -573,10 +602,11 @@ TxStart(tx, accts) ==
   LET w0  == MkWorld(accts)
       why == Invalid(tx, w0)
       price == tx.price
-      w1  == SetAcct(w0, tx.from, [Acct(w0, tx.from) EXCEPT !.bal = @ - tx.gas * price,
+      w1  == SetAcct(w0, tx.from, [Acct(w0, tx.from) EXCEPT !.bal = @ - tx.gas * price - BlobGas(tx) * tx.blobBaseFee,
                                                               !.nonce = IF tx.isCreate THEN @ ELSE @ + 1])
-      toCode == IF tx.isCreate THEN << >> ELSE Acct(w0, tx.to).code
-      w2  == [w1 EXCEPT !.warmA = {tx.from, tx.coinbase} \cup (IF tx.isCreate THEN {} ELSE {tx.to})
+      wa  == ApplyAuths(w1, tx, 1)
+      toCode == IF tx.isCreate THEN << >> ELSE Acct(wa, tx.to).code
+      w2  == [wa EXCEPT !.warmA = @ \cup {tx.from, tx.coinbase} \cup (IF tx.isCreate THEN {} ELSE {tx.to})
                                     \cup (IF IsDeleg(toCode, tx.fork) THEN {DelegTarget(toCode)} ELSE {})
                                     \cup {tx.alAddrs[i] : i \in DOMAIN tx.alAddrs},
                         !.warmS = {<<tx.alKeys[i][1], tx.alKeys[i][2]>> : i \in DOMAIN tx.alKeys}]
